@@ -109,7 +109,7 @@ func (m *memFS) Open(name string) (fs.File, error) {
 		return &memDir{m: m, name: name, info: memInfo{name: base, dir: true}, ents: m.children(abs)}, nil
 	}
 	body := marker(n.id)
-	return &memFile{m: m, name: name, info: memInfo{name: base, size: int64(len(body))}, r: bytes.NewReader([]byte(body))}, nil
+	return &memFile{m: m, name: name, info: memInfo{name: base, size: int64(len(body)), mt: n.id}, r: bytes.NewReader([]byte(body))}, nil
 }
 
 func marker(id int) string { return "FILE:" + itoa(id) + ":END\n" }
@@ -132,6 +132,7 @@ type memInfo struct {
 	name string
 	size int64
 	dir  bool
+	mt   int // seconds after fixedTime: the file id (0 for directories)
 }
 
 func (i memInfo) Name() string { return i.name }
@@ -142,7 +143,7 @@ func (i memInfo) Mode() fs.FileMode {
 	}
 	return 0o644
 }
-func (i memInfo) ModTime() time.Time         { return fixedTime }
+func (i memInfo) ModTime() time.Time         { return fixedTime.Add(time.Duration(i.mt) * time.Second) }
 func (i memInfo) IsDir() bool                { return i.dir }
 func (i memInfo) Sys() any                   { return nil }
 func (i memInfo) Type() fs.FileMode          { return i.Mode().Type() }
